@@ -31,7 +31,7 @@ def _seeds(prop):
     return [o for o in hv.prop_ops(prop) if o["op"] == "direct_edit"]
 
 
-def short_histories(prop, depth2: bool, small: bool):
+def short_histories(prop, depth2: bool, small: bool, nseeds=None):
     """[seed edit, get view 1, get view 2] + every sequence of length 1 (full alphabet) and,
     when depth2, every sequence of length 2 over the small alphabet."""
     kind, _ = hv.VIEWS[prop]
@@ -39,7 +39,7 @@ def short_histories(prop, depth2: bool, small: bool):
     full = _with_vw(hv.ops_for(kind), 1) + hv.prop_ops(prop) + gets
     sm = _with_vw(hv.ops_for(kind, small=True), 1) + _with_vw(hv.ops_for(kind, small=True)[::3], 2) + hv.prop_ops(prop, small=True)[::2] + gets
     out = []
-    for seed in _seeds(prop):
+    for seed in _seeds(prop)[:nseeds]:
         pre = [seed] + gets
         for o in full:
             out.append(pre + [o])
@@ -239,9 +239,9 @@ def run(ctx: Ctx):
         "and parameters is outside the re-read clause (documented: only one should have a value)",
     ]
     # 1. model checking (+ non-vacuity: the model of the code before the fixes violates the contract)
-    for k in ("set", "wa", "cc"):
-        ctx.model_check(AREA, "HVModel", f"MCQ_{k}", timeout=600)
-        if not q:
+    # (the quick-size configs MCX_* check the same properties while exporting the transition system, see 2.)
+    if not q:
+        for k in ("set", "wa", "cc"):
             ctx.model_check(AREA, "HVModel", f"MCT_{k}", timeout=3000)
     from .. import tlc
     for cfg in ("MCQ_orig_set", "MCQ_orig_wa"):
@@ -252,18 +252,16 @@ def run(ctx: Ctx):
     ctx.exhaustive = True
     # 2. spec -> code
     for k in ("set", "wa", "cc"):
-        replay_model(ctx, f"MCX_{k}", limit=500 if q else None)
+        replay_model(ctx, f"MCX_{k}", limit=300 if q else 4000)
     # 3. code -> spec
     traces = []
     for p in hv.VIEW_PROPS:
-        traces += short_histories(p, depth2=True, small=True) if not q else short_histories(p, depth2=False, small=True)
-    if q:
-        for p in hv.VIEW_PROPS:
-            hs = short_histories(p, depth2=True, small=True)
-            hs = [h for h in hs if len(h) == 5]
-            traces += rng.sample(hs, min(len(hs), 100))
+        traces += short_histories(p, depth2=False, small=True, nseeds=2 if q else None)
+    for p in hv.VIEW_PROPS:
+        hs = [h for h in short_histories(p, depth2=True, small=True) if len(h) == 5]
+        traces += rng.sample(hs, min(len(hs), 60 if q else 1500))
     traces += scalar_traces(rng)
-    for _ in range(500 if q else 30000):
+    for _ in range(300 if q else 5000):
         traces.append(random_walk(rng, rng.randint(6, 14)))
     ctx.notes["histories"] = len(traces)
     lines = judge_traces(ctx, traces)
